@@ -1,5 +1,6 @@
 pub mod agent;
 pub mod grid;
+pub mod mapq;
 pub mod oracle;
 pub mod scripts;
 pub mod store;
